@@ -10,6 +10,15 @@ NOTE_COMMON = ("Trusted: Verus 0.2026.09.13 + Z3; the extractor's logged rewrite
                "std/serde_json stand-ins listed in evidence.coverage.trusted_base (external_body / assume_specification / uninterp); ")
 
 CLAIMED = {
+    "C15": {
+        "text": "Proof of the sequential obligations under an assumed clock model: in listen()'s accept loop a timeout error is returned only when the ghost idle clock has "
+                "reached idle_timeout*1000 ms since the last accepted connection AND the pool counter just read is 0 (nothing queued or being served); with a stop flag the "
+                "flag is polled every 100 ms and Ok(()) is returned only from such a poll; ThreadPool::drop sends one Terminate per worker behind everything queued and joins "
+                "every worker; the worker loop leaves only on Terminate.",
+        "note": NOTE_COMMON + "clock model: Listener::accept(t) returns Err(Timeout) only after >= t ms without a connection (assumed; select() and real time are outside the verifier); "
+                "`pool` is dropped on every return path by Rust's scope rules (not modelled by Verus); FIFO channel and join semantics are stand-ins; socket unlinking is not yet covered.",
+        "ref": "5-C15",
+    },
     "C17": {
         "text": "Proof (hand-written serde code only): Serialize for StringHashSet writes, through any Serializer obeying the SerializeMap protocol, a map declared with "
                 "the set's length whose keys are exactly the elements (once each) and whose values are all `{}`; the Deserialize map visitor obeys the strict key/value "
